@@ -19,6 +19,7 @@ import RtenVerif.Lemmas.LayoutSeq
 import RtenVerif.Lemmas.InPlace
 import RtenVerif.Lemmas.BinaryDispatch
 import RtenVerif.Lemmas.ReduceDispatch
+import RtenVerif.Lemmas.BlockedCopy
 import RtenVerif.Props.C09
 
 namespace RtenVerif.FastBroadcast
@@ -493,3 +494,51 @@ example : transformInPlaceInputs [0] [⟨1, none⟩] = [0] ∧ transformInPlaceI
     transformInPlaceInputs [4, 5] [⟨0, none⟩, ⟨17, none⟩] = [4, 5] := by decide
 
 end RtenVerif.Layout
+
+/-! ## D6: the blocked transpose copy behind `to_contiguous` -/
+namespace RtenVerif.BlockedCopy
+
+/-- **C14 D6.** `copy_blocked` — 64-blocks, 4×4 tiles (transposing or not), narrow edge tiles, short
+edge rows — fills the contiguous destination with the source in logical row-major order:
+`dest[y * cols + x] = src[y, x]` for every index, for every matrix size (every slot is written,
+only in-range slots are written, and every write carries the element of its own index). -/
+theorem c14_blocked_copy_row_major {α : Type} (rows cols B T : Nat) (hB : 0 < B) (hT : 0 < T)
+    (src : Nat → Nat → α) (dest0 : List α) (hlen : dest0.length = rows * cols) :
+    blockedCopy rows cols B T src dest0 =
+      (List.range (rows * cols)).map (fun p => src (p / cols) (p % cols)) := by
+  unfold blockedCopy
+  have hval : ∀ v ∈ blockedVisits rows cols B T,
+      src v.1 v.2 = (fun p => src (p / cols) (p % cols)) (v.1 * cols + v.2) := by
+    intro v hv
+    have hb := blockedVisits_bounds rows cols B T hB v hv
+    have hc : 0 < cols := by omega
+    simp only
+    rw [Nat.mul_comm, Nat.mul_add_div hc, Nat.div_eq_of_lt hb.2, Nat.add_zero, Nat.mul_add_mod,
+      Nat.mod_eq_of_lt hb.2]
+  apply List.ext_getElem?
+  intro i
+  by_cases hi : i < rows * cols
+  · rw [foldl_set_visited (fun v : Nat × Nat => v.1 * cols + v.2) (fun v => src v.1 v.2)
+      (fun p => src (p / cols) (p % cols)) _ dest0 i hval (by rw [hlen]; exact hi)]
+    · simp [hi]
+    · have hc : 0 < cols := by
+        cases cols with
+        | zero => simp at hi
+        | succ c => exact Nat.succ_pos c
+      refine ⟨(i / cols, i % cols), blockedVisits_cover rows cols B T hB hT _ _ ?_ (Nat.mod_lt _ hc), ?_⟩
+      · exact (Nat.div_lt_iff_lt_mul hc).mpr hi
+      · simp only; rw [Nat.mul_comm]; exact Nat.div_add_mod i cols
+  · have h1 : (List.foldl (fun d (v : Nat × Nat) => d.set (v.1 * cols + v.2) (src v.1 v.2)) dest0
+        (blockedVisits rows cols B T))[i]? = none := by
+      rw [List.getElem?_eq_none_iff, foldl_set_length, hlen]; omega
+    rw [h1]
+    simp [hi]
+
+
+/-- 5×6 with blocks of 4 and tiles of 2 (full tiles, narrow edge, short edge rows all occur). -/
+example : blockedCopy 5 6 4 2 (fun y x => 10 * y + x) (List.replicate 30 0) =
+    (List.range 30).map (fun p => 10 * (p / 6) + p % 6) := by decide
+/-- Every index pair is visited exactly once here (no double writes in this instance). -/
+example : (blockedVisits 5 6 4 2).length = 30 := by decide
+
+end RtenVerif.BlockedCopy
